@@ -172,6 +172,64 @@ func (c *Checker) decodeForEncode(sh s35Shape, calls *[]crcCall) (*nav, Val, *s3
 	return &nav{sum.in, sum.Out}, sum.RetN(0), x, ""
 }
 
+// s35CRCCase decides only the checksum clause for one shape: the section
+// UpdateData() returns for the decoded signal ends in the result of one
+// ComputeCRC call whose input is exactly the bytes before those four, and its
+// length agrees with its own section_length.
+func (c *Checker) s35CRCCase(sh s35Shape, stuffing int) string {
+	var calls []crcCall
+	n, sig, _, why := c.decodeForEncode(sh, &calls)
+	if why != "" {
+		return why
+	}
+	if stuffing > 0 {
+		n.call(sig, "SetAlignmentStuffing", constInt(int64(stuffing), 64, false))
+		if n.in.Fail != "" {
+			return "analysis of SetAlignmentStuffing: " + n.in.Fail
+		}
+	}
+	before := len(calls)
+	out := n.call(sig, "UpdateData")
+	if n.in.Fail != "" {
+		return "analysis of UpdateData: " + n.in.Fail
+	}
+	got, why := n.readBytes(out)
+	if why != "" {
+		return why
+	}
+	if len(got) < 7 {
+		return fmt.Sprintf("the encoding has %d bytes", len(got))
+	}
+	hi, ok1 := constLowBits(got[1], 4)
+	lo, ok2 := got[2].ConstInt()
+	if !ok1 || !ok2 {
+		return "section_length of the output is not a constant of the layout"
+	}
+	if sl := int(hi&0x0f)<<8 | int(lo); sl+3 != len(got) {
+		return fmt.Sprintf("section_length %d but %d bytes emitted", sl, len(got))
+	}
+	if len(calls)-before != 1 {
+		return fmt.Sprintf("ComputeCRC is called %d times while encoding", len(calls)-before)
+	}
+	cc := calls[len(calls)-1]
+	body := len(got) - 4
+	if len(cc.input) != body {
+		return fmt.Sprintf("CRC computed over %d bytes, the section has %d before CRC_32", len(cc.input), body)
+	}
+	for i, v := range cc.input {
+		bv, ok := v.(*BV)
+		if !ok || !sameBV(bv, got[i]) {
+			return fmt.Sprintf("CRC input byte %d is not output byte %d", i, i)
+		}
+	}
+	for i := 0; i < 4; i++ {
+		if !sameBV(got[body+i], cellBV(cc.out.Name, i)) {
+			return fmt.Sprintf("CRC_32 byte %d is not byte %d of the ComputeCRC result", i, i)
+		}
+	}
+	return ""
+}
+
 func (c *Checker) runS35RoundTrip(thorough bool) {
 	shapes := s35Shapes(thorough)
 	groups := map[string]*stepAgg{}
@@ -277,4 +335,18 @@ func runC09(c *Checker) {
 	c.runS35RoundTrip(c.Tier == "thorough")
 	c.runS35Setters(c.Tier == "thorough")
 	c.runS35Build()
+}
+
+// constLowBits: the value of the n low bits of v when they are constants.
+func constLowBits(v *BV, n int) (int64, bool) {
+	var x int64
+	for i := 0; i < n && i < v.W; i++ {
+		if !isConst(v.Bits[i]) {
+			return 0, false
+		}
+		if v.Bits[i].c {
+			x |= 1 << uint(i)
+		}
+	}
+	return x, true
 }
